@@ -1197,6 +1197,7 @@ func checkC09core(cx *Ctx, r *Report, withBCE bool) {
 	nc.established = cx.checkConstructedNonNil(r)
 	nc.computeChainFacts(r)
 	nc.checkChainAssignments(r)
+	nc.checkCallbackErrorDeref(r)
 	// sibling results of a failed call are not used: the failing branch leaves (R-ERR; R-NIL relies on it when it
 	// takes a result returned together with a non-nil error for unobservable)
 	{
@@ -2148,4 +2149,111 @@ func nonNegativeLen(v ssa.Value, depth int) bool {
 		return len(x.Edges) > 0
 	}
 	return false
+}
+
+// checkCallbackErrorDeref (R-NIL): the handlers of the three chains keep the error of the failing step in a shared
+// variable that the step's callback reads. `fmt.Errorf("...: %w", err)` tolerates a nil error; `err.Error()` - in the
+// callback or in a helper it hands the error to - does not. Where a callback calls Error() on that variable, the step's
+// logic must have stored a non-nil error into it on every path on which it fails (directly, or through the setter
+// closure a factory-made step is given). A step that reports its failure only through its return value leaves the
+// variable nil: the callback panics.
+func (nc *nilCtx) checkCallbackErrorDeref(r *Report) {
+	cx, fx := nc.cx, nc.cx.Fx
+	w := cx.W
+	for _, hk := range []string{kSSO, kLogout, kAttr} {
+		h := w.Func(hk)
+		if h == nil {
+			continue
+		}
+		ch, err := w.extractChain(fx, h)
+		if err != nil {
+			continue
+		}
+		isErrCell := func(addr ssa.Value) *ssa.Alloc {
+			c := fx.ownerCell(addr)
+			if c != nil && c.Parent() == h && isErrorType(derefType(c.Type())) {
+				return c
+			}
+			return nil
+		}
+		// does value v (inside f) stand for the content of an error cell of the handler?
+		var cellOfValue func(v ssa.Value, depth int) *ssa.Alloc
+		cellOfValue = func(v ssa.Value, depth int) *ssa.Alloc {
+			if depth > 3 {
+				return nil
+			}
+			switch x := v.(type) {
+			case *ssa.UnOp:
+				if x.Op == token.MUL {
+					return isErrCell(x.X)
+				}
+			case *ssa.Parameter:
+				var found *ssa.Alloc
+				for _, a := range fx.argsOf[x] {
+					c := cellOfValue(a, depth+1)
+					if c == nil {
+						return nil
+					}
+					found = c
+				}
+				return found
+			}
+			return nil
+		}
+		for _, s := range ch.Steps {
+			for f := range s.EScp {
+				for _, c := range callsIn(f) {
+					com := c.Common()
+					if !com.IsInvoke() || com.Method.Name() != "Error" || !isErrorType(com.Value.Type()) {
+						continue
+					}
+					cell := cellOfValue(com.Value, 0)
+					if cell == nil {
+						continue
+					}
+					// the step's logic stores into the cell on every failing path
+					lf := s.Fn("logic")
+					bad := ""
+					if lf == nil {
+						bad = "the step has no logic that could have set the error"
+					} else if aps, ok := fx.atomPaths(lf, 4096); !ok {
+						bad = "the paths of the step's logic cannot be enumerated"
+					} else {
+						for i := range aps {
+							p := &aps[i]
+							if p.Ret == nil || len(p.Ret.Results) == 0 {
+								continue
+							}
+							if isNil, _ := fx.errNilness(p, fx.retVal(p, len(p.Ret.Results)-1)); isNil {
+								continue // a passing path
+							}
+							stored := false
+							for _, in := range p.Instrs() {
+								if st, isSt := in.(*ssa.Store); isSt && isErrCell(st.Addr) == cell && !isNilConst(st.Val) {
+									stored = true
+								}
+								// the setter a factory-made step is given: `func(e error) { err = e }`
+								if cl, isCall := in.(*ssa.Call); isCall && !cl.Call.IsInvoke() && calleeOf(cl) == nil {
+									if tg, okT := fx.funcTargets(cl.Call.Value); okT {
+										for _, g := range tg {
+											for _, st := range fx.info(g).stores {
+												if isErrCell(st.Addr) == cell {
+													stored = true
+												}
+											}
+										}
+									}
+								}
+							}
+							if !stored {
+								bad = "the step's logic can fail (" + w.InstrPos(p.Ret) + ") without having stored its error into the variable the callback reads"
+								break
+							}
+						}
+					}
+					r.Check(bad == "", "R-NIL", "callback-error:"+w.FuncKey(f)+"@"+w.InstrPos(c), w.InstrPos(c), "Error() is called on the handler's error variable only where the failing step has set it", "Error() is called on the handler's error variable, but "+bad+": a nil error makes the callback panic")
+				}
+			}
+		}
+	}
 }
